@@ -248,6 +248,10 @@ def delimiter_mutations(text):
     out.append(("trailing-comma", text + " , "))
     out.append(("trailing-comma", text + ", "))
     out.append(("empty-group", text + ", ()"))
+    out.append(("empty-group", text + ", (), ()"))            # two empty groups are also a repeated group
+    out.append(("empty-group", "(), (), " + text))
+    out.append(("empty-group", "((), ()), " + text))
+    out.append(("empty-group", "(" + text + ", ()), (" + text + ", ())"))
     # swapped parentheses with equal counts: turn the first "(...)" into ")...("
     a = text.find("(")
     if a != -1:
